@@ -1860,7 +1860,17 @@ class ProbeStream(Stream):
 
     name = "probes"
     KINDS = ["MultiDict", "ImmutableMultiDict", "Headers", "HeaderSet", "ImmutableDict", "ImmutableTypeConversionDict", "ImmutableList", "CombinedMultiDict", "FileMultiDict", "TypeConversionDict"]
-    ASPECTS = ["copy.copy", "copy()", "deepcopy", "pickle2", "pickle5", "eq"]
+    ASPECTS = ["copy.copy", "copy()", "deepcopy", "pickle2", "pickle5", "eq", "eqhash"]
+    HASHABLE = ["ImmutableMultiDict", "ImmutableDict", "ImmutableTypeConversionDict", "ImmutableList"]
+    # inputs whose keys can be inserted in another order without changing the value
+    EQH_PAIRS = [
+        [["a", "1"], ["b", "1"]],
+        [["a", "1"], ["b", "2"], ["c", "3"]],
+        [["a", "1"], ["b", "x"], ["a", "2"]],
+        [["b", "1"], ["a", "1"], ["b", "2"], ["a", "2"], ["c", "1"]],
+        [["a", "1"]],
+        [],
+    ]
 
     def cases(self, rng, tier):
         n = 600 if tier == "quick" else 8000
@@ -1868,10 +1878,18 @@ class ProbeStream(Stream):
             for asp in self.ASPECTS:
                 yield {"kind": kind, "aspect": asp, "pairs": []}
                 yield {"kind": kind, "aspect": asp, "pairs": [["a", "1"], ["b", "x"], ["a", "2"]]}
+        # equal objects built with their keys inserted in a different order: equal hash, one set member
+        for kind in self.HASHABLE:
+            for pairs in self.EQH_PAIRS:
+                for perm in range(6):
+                    yield {"kind": kind, "aspect": "eqhash", "pairs": pairs, "perm": perm}
         for _ in range(n):
             kind = rng.choice(self.KINDS)
             pairs = [[rng.choice(["a", "b", "A", "c"]), rng.choice(["1", "2", "x"])] for _ in range(rng.randrange(0, 5))]
-            yield {"kind": kind, "aspect": rng.choice(self.ASPECTS), "pairs": pairs}
+            asp = rng.choice(self.ASPECTS)
+            if asp == "eqhash":
+                kind = rng.choice(self.HASHABLE)
+            yield {"kind": kind, "aspect": asp, "pairs": pairs, "perm": rng.randrange(1000)}
 
     @staticmethod
     def build(ds, kind, pairs):
@@ -1943,6 +1961,40 @@ class ProbeStream(Stream):
         before = self.content(x)
         immutable = kind.startswith("Immutable")
         out = []
+        if asp == "eqhash":
+            if kind not in self.HASHABLE:
+                return "ok"
+            ps = [list(p) for p in case["pairs"]]
+            keys = []
+            for k, _ in ps:
+                if k not in keys:
+                    keys.append(k)
+            perm = case.get("perm", 0)
+            variants = [
+                [p for k in reversed(keys) for p in ps if p[0] == k],  # keys reversed, per-key order kept
+                [p for k in sorted(keys) for p in ps if p[0] == k],
+                [p for k in keys[1:] + keys[:1] for p in ps if p[0] == k],
+                ps[1:] + ps[:1],
+                list(reversed(ps)),
+            ]
+            r2 = random.Random(perm)
+            sh = list(keys)
+            r2.shuffle(sh)
+            variants.append([p for k in sh for p in ps if p[0] == k])
+            y_pairs = variants[perm % len(variants)]
+            y = self.build(ds, kind, y_pairs)
+            if x == y:
+                if hash(x) != hash(y):
+                    out.append(f"equal objects (built from {y_pairs!r}) hash differently")
+                if len({x, y}) != 1:
+                    out.append("equal objects are two different set members")
+                if {x: 1}.get(y) != 1 or {y: 1}.get(x) != 1:
+                    out.append("equal objects are not interchangeable as dict keys")
+                if not (y == x) or (x != y):
+                    out.append("== is not symmetric / consistent with !=")
+            elif sorted(map(tuple, ps)) == sorted(map(tuple, y_pairs)) and kind != "ImmutableList" and [p for k in keys for p in ps if p[0] == k] == [p for k in keys for p in y_pairs if p[0] == k]:
+                out.append(f"same keys and per-key values (built from {y_pairs!r}) compare unequal")
+            return ";".join(out) if out else "ok"
         if asp == "eq":
             y = self.build(ds, kind, case["pairs"])
             z = self.build(ds, kind, case["pairs"] + [["q", "9"]])
